@@ -1157,25 +1157,32 @@ def g_declared_global_under_a_shadow(R, tier):
     access functions, every flag valuation of the enclosing function's x."""
     ns = NS()
     for kind in ("function", "class"):
-        for depth in (1, 2):
+        for depth in (1, 2, 3):
             def run(c):
                 m = Machine(stubs=stubs())
                 sT, fT = mk_symbol("T.x")
-                c.assume(fT["declared_global"])
+                # x is a GLOBAL name of the scope: declared here, or -- 4.2.2, "resolved using the nearest enclosing
+                # scope" -- because a function in between declares it global (then it is an implicit global here)
+                c.assume(fT["glob"])
                 sB, fB = mk_symbol("B.x")
                 B = mk_scope("B", "function", {"x": sB})
                 stack = [mk_scope("G", "global"), B]
                 if depth == 2:
                     stack.append(mk_scope("M", "function", {}))   # a function in between that does not mention x
+                if depth == 3:
+                    sM, fM = mk_symbol("M.x")
+                    c.assume(fM["declared_global"])
+                    stack.append(mk_scope("M", "function", {"x": sM}))   # a function in between that declares x global
                 symt = mk_symt("T", symbols={"x": sT}, frees=[], nonlocals=[], kind=kind)
                 cls = ns.NamespaceFunction if kind == "function" else ns.NamespaceClass
                 T = m.call_value(cls, symt, stack)
                 V = Opaque("V", ast.expr)
-                st = m.call_value(cls.get_assign, T, "x", V)
+                # (a name that is global without a declaration in this very scope is never written here)
+                st = m.call_value(cls.get_assign, T, "x", V) if c.branch(fT["declared_global"]) else None
                 ld = m.call_value(cls.get_load_name, T, "x")
                 return dict(st=st, ld=ld, fB=fB)
             paths = explore(run)
-            nm = f"namespaces.Namespace{kind.capitalize()}[declared-global,enclosing-function-{'directly-around' if depth == 1 else 'two-levels-up'}]"
+            nm = f"namespaces.Namespace{kind.capitalize()}[global-name,enclosing-function-{ {1: 'directly-around', 2: 'two-levels-up', 3: 'two-levels-up-behind-a-function-that-declares-it-global'}[depth]}]"
             if not paths_or_undecided(R, nm + "/paths", paths):
                 continue
             for p in paths:
@@ -1187,8 +1194,10 @@ def g_declared_global_under_a_shadow(R, tier):
                 # a plain name is right only on paths where the enclosing function provably has NO variable x
                 unshadowed, _ = p.ctx.valid(z3.Not(v["fB"]["local"]))
                 shadowed = not unshadowed
-                got_s, got_l = loc_of_store(v["st"], p.ctx), loc_of_load(v["ld"], p.ctx)
-                R.check(f"{nm}/writes-the-module-global/{sig}", got_s == ("global", "x"), repr(got_s), replay=dict(kind="scope"))
+                got_l = loc_of_load(v["ld"], p.ctx)
+                if v["st"] is not None:
+                    got_s = loc_of_store(v["st"], p.ctx)
+                    R.check(f"{nm}/writes-the-module-global/{sig}", got_s == ("global", "x"), repr(got_s), replay=dict(kind="scope"))
                 ok_l = got_l == ("global", "x") or (got_l == ("plain", "x") and unshadowed)
                 R.check(f"{nm}/reads-the-module-global-not-the-enclosing-function-s-variable/{sig}", ok_l,
                         f"{got_l}; the enclosing function may have its own x: {shadowed}", replay=dict(kind="scope"))
@@ -1297,6 +1306,8 @@ GROUPS = {"declared_global_under_a_shadow": g_declared_global_under_a_shadow, "o
 
 # ----------------------------------------------------------------------------------------
 SCOPE_PROGRAMS = [
+    # a name made global by a function in between is global in everything nested in that function (4.2.2)
+    "x = 'global'\ndef f():\n    x = 'local'\n    def g():\n        global x\n        def h():\n            return x\n        class K:\n            y = x\n        return h(), K.y, (lambda: x)()\n    return g(), x\nr = f()\n",
     "x = 'g'\ndef outer(x):\n    y = 'local'\n    def inner():\n        global x, y\n        x = x + '!'\n        f = lambda: (x, [x for q in (1,)])\n        y = 'set'\n        return x, f()\n    class K:\n        global x\n        z = x\n    return inner(), x, y, K.z\nr = (outer('p'), x, y)\n",
     "limit = 1\nclass A:\n    limit = 2\n    f = lambda self: limit\n    double = limit * 2\n    seq = (1, 2)\n    g = [q + limit for q in seq]\n    h = [[p + q for p in seq2] for q in seq for seq2 in [(q,)]]\n    k = (lambda a=limit: a + limit)()\nr = (A.double, A().f(), A.g, A.h, A.k)\n",
     "def f(limit):\n    class A:\n        own = 5\n        g = [limit + q for q in (own,)]\n        h = lambda self: limit\n    return A.g, A().h()\nr = f(3)\n",
@@ -1344,3 +1355,13 @@ REPLAY.update({k: v for k, v in __import__("suites.c07", fromlist=["REPLAY"]).RE
 
 # bounded stand-ins for undecided obligations (olvc/oblig.py::main_check)
 STANDINS = {"*": [dict(kind="scope")]}
+
+
+def g_witness(R, tier):
+    native_finding(R, "namespaces.NamespaceClass.get_load_name/W1-a-global-declaration-of-a-class-body-does-not-reach-its-comprehensions",
+                   "a class body's `global x` is applied to the comprehensions and lambdas written in that class body as well; in Python they are scopes of their own "
+                   "that skip the class (4.2.2) and read the enclosing function's x",
+                   "def f():\n    x = 'local'\n    class K:\n        global x\n        x = 'global'\n        r = [x for _ in range(1)]\n    return K.r\nr = f()\n")
+
+
+GROUPS["witness"] = g_witness
